@@ -412,6 +412,13 @@ def dict_key(I, d, key):
                     r = I.call(BoundMethod(m, key), [k], {})
                     if r is True or r is sp.true:
                         return k
+    elif isinstance(key, Phi):
+        # a value that is one of two under a condition (e.g. the printed form of a formula with symbolic counts): the same
+        # value computed again is the same key
+        rk = repr(key)
+        for k in d:
+            if isinstance(k, Phi) and repr(k) == rk:
+                return k
     elif isinstance(key, tuple) and key not in d:
         # a tuple key holding objects whose class defines equality: equal tuples are one key
         def has_eq(x):
@@ -449,6 +456,8 @@ def compare(I, op, a, b):
         if isinstance(a, Vec):
             return Vec(compare(I, op, x, b) for x in a)
         return Vec(compare(I, op, a, y) for y in b)
+    if isinstance(a, Phi) and isinstance(op, (ast.In, ast.NotIn)) and isinstance(b, dict) and I is not None and dict_key(I, b, a) in b:
+        return isinstance(op, ast.In)          # the very key (a value under a condition) is in the dictionary
     if isinstance(a, Phi):
         return sp.ITE(a.cond, _b(compare(I, op, a.a, b)), _b(compare(I, op, a.b, b)))
     if isinstance(b, Phi):
@@ -772,7 +781,7 @@ def subscript(I, base, key):
         if isinstance(base, DefaultDict) and base.factory is not None:
             base[k] = I.call(base.factory, [], {})
             return base[k]
-        raise SymRaise("KeyError", repr(key))
+        raise SymRaise("KeyError", repr(key) + (f" (keys: {[repr(k_)[:80] for k_ in list(base)[:6]]})" if isinstance(key, Phi) else ""))
     if isinstance(base, SymObj) and base.cls is not None:
         m = base.cls.lookup("__getitem__")
         if m is not _MISSING:
